@@ -65,6 +65,13 @@ func matchKnownFinding(prop string, c any, what string) string {
 		return ""
 	}
 	tags, _ := m["sig"].([]string)
+	if xs, ok := m["sig"].([]any); ok { // cases read back from a corpus / replay file
+		for _, x := range xs {
+			if t, ok := x.(string); ok {
+				tags = append(tags, t)
+			}
+		}
+	}
 	for _, f := range knownFindings {
 		if f.Status != "finding" || f.Property != prop {
 			continue
